@@ -338,6 +338,7 @@ func c20(r *engine.Report, p *engine.Program) {
 	{
 		// ExtraExtensions element store = the ranged request extension, under Id.Equal(OIDSubjectAltName)
 		okExt, okFallback, okCA, okUsage := false, false, false, false
+		var signHelpers []*ssa.Function // private helpers that pick the extension out of the request's list
 		for _, b := range sign.Blocks {
 			for _, in := range b.Instrs {
 				st, isS := in.(*ssa.Store)
@@ -379,6 +380,10 @@ func c20(r *engine.Report, p *engine.Program) {
 								}
 							}
 						}
+						if h := elementPickedByHelper(p, sign, val); h != nil {
+							okExt = true
+							signHelpers = append(signHelpers, h)
+						}
 					}
 				}
 			}
@@ -397,7 +402,11 @@ func c20(r *engine.Report, p *engine.Program) {
 		}
 		okUsage = usages[1] && usages[2]
 		sanEq := false
-		for _, ci := range callsTo(sign, "(encoding/asn1.ObjectIdentifier).Equal") {
+		var eqCalls []ssa.CallInstruction
+		for _, f := range append([]*ssa.Function{sign}, signHelpers...) {
+			eqCalls = append(eqCalls, callsTo(f, "(encoding/asn1.ObjectIdentifier).Equal")...)
+		}
+		for _, ci := range eqCalls {
 			for _, a := range ci.Common().Args {
 				if u, isU := a.(*ssa.UnOp); isU {
 					if g, isG := u.X.(*ssa.Global); isG && g.Name() == "OIDSubjectAltName" {
@@ -564,4 +573,116 @@ func c20(r *engine.Report, p *engine.Program) {
 				"success in receptor mode requires found == true from ParseReceptorNamesFromCert(certs[0], expectedHostname) called in the same invocation; no package-level state is touched", why)
 		}
 	}
+}
+
+// elementPickedByHelper recognises `ext, found := helper(req.Extensions)`: val is result #i of a
+// call from owner to a private helper of owner whose argument k is the request's Extensions list
+// and whose result #i is, on every return, either the zero value or an element of parameter k
+// as it is (no field written). It returns the helper, or nil.
+func elementPickedByHelper(p *engine.Program, owner *ssa.Function, val ssa.Value) *ssa.Function {
+	idx := 0
+	if u, ok := val.(*ssa.UnOp); ok {
+		if al, isAl := u.X.(*ssa.Alloc); isAl {
+			if sv := storedVal(al); sv != nil {
+				val = sv
+			}
+		}
+	}
+	if ex, ok := val.(*ssa.Extract); ok {
+		idx = ex.Index
+		val = ex.Tuple
+	}
+	call, ok := val.(*ssa.Call)
+	if !ok {
+		return nil
+	}
+	h := call.Common().StaticCallee()
+	if h == nil || len(h.Blocks) == 0 || privateHelperOf(p, h, map[string]bool{engine.FuncName(owner): true}) == "" {
+		return nil
+	}
+	k := -1
+	for i, a := range call.Common().Args {
+		if f, _ := engine.FieldOfLoad(a); f != nil && f.Name() == "Extensions" {
+			k = i
+		}
+	}
+	if k < 0 || k >= len(h.Params) {
+		return nil
+	}
+	param := h.Params[k]
+	elems := 0
+	for _, b := range h.Blocks {
+		for _, in := range b.Instrs {
+			// no field of an extension is written anywhere in the helper
+			if st, isS := in.(*ssa.Store); isS {
+				if fa, isFA := st.Addr.(*ssa.FieldAddr); isFA {
+					if fv := engine.FieldAddrVar(fa); fv != nil && fv.Pkg() != nil && fv.Pkg().Path() == "crypto/x509/pkix" {
+						return nil
+					}
+				}
+			}
+			ret, isR := in.(*ssa.Return)
+			if !isR {
+				continue
+			}
+			if idx >= len(ret.Results) {
+				return nil
+			}
+			rv := ret.Results[idx]
+			var cands []ssa.Value
+			var expand func(v ssa.Value, d int)
+			expand = func(v ssa.Value, d int) {
+				if ph, isPhi := v.(*ssa.Phi); isPhi && d < 4 {
+					for _, e := range ph.Edges {
+						expand(e, d+1)
+					}
+					return
+				}
+				cands = append(cands, v)
+			}
+			expand(rv, 0)
+			for _, c := range cands {
+				if _, isK := c.(*ssa.Const); isK {
+					continue // a constant of struct type is the zero value
+				}
+				u, isU := c.(*ssa.UnOp)
+				if !isU {
+					return nil
+				}
+				if al, isAl := u.X.(*ssa.Alloc); isAl {
+					sv := storedVal(al)
+					if sv == nil {
+						// zero value: the cell is never stored to (neither whole nor by field)
+						zero := true
+						if refs := al.Referrers(); refs != nil {
+							for _, rr := range *refs {
+								switch rr.(type) {
+								case *ssa.UnOp, *ssa.DebugRef:
+								default:
+									zero = false
+								}
+							}
+						}
+						if !zero {
+							return nil
+						}
+						continue
+					}
+					var isU2 bool
+					if u, isU2 = sv.(*ssa.UnOp); !isU2 {
+						return nil
+					}
+				}
+				ia, isIA := u.X.(*ssa.IndexAddr)
+				if !isIA || ia.X != ssa.Value(param) {
+					return nil
+				}
+				elems++
+			}
+		}
+	}
+	if elems == 0 {
+		return nil
+	}
+	return h
 }
